@@ -1,7 +1,7 @@
 (* C05 — non-aggregate queries are a stateless, ordered, row-wise filter + projection.
    Only statements; proofs in Proofs/DirectProofs.v; model in Model/Direct.v
    (WHERE = Model/Bridge.v where_true, expression items = Model/ExprEval.v / Bridge.v by path). *)
-From SV Require Import Model.Direct Proofs.DirectProofs.
+From SV Require Import Model.Direct Proofs.DirectProofs Model.NestedPath Proofs.NestedPathProofs.
 
 Theorem C05_direct_where_iff : forall q row r,
   direct q row = DRow r <-> (where_ok q row = Some true /\ project q row = Some r).
@@ -90,3 +90,162 @@ Example C05_stale_receive_reorders :
   y_sink (yrun false q ops) = [direct q (r 2%Z); direct q (r 1%Z); direct q (r 3%Z)] /\
   y_sink (yrun true q ops) = [direct q (r 1%Z); direct q (r 2%Z); direct q (r 3%Z)].
 Proof. vm_compute. repeat split; reflexivity. Qed.
+
+(* ================= nested field paths of select items (Model/NestedPath.v: utils/fieldpath + processSimpleField) =================
+   Values: scalars, arrays, maps (jvalue); a path TEXT is parsed (np_parse = ParseFieldPath) into parts
+   and resolved step by step (nested_field = GetNestedField, incl. the fallback to plain dot access on a
+   parse error and the panic of a lone-quote bracket). *)
+
+(* compositionality on parts: the parts ps ++ qs resolve as qs in the value ps resolves to *)
+Theorem C05_path_compositional : forall ps qs v,
+  np_get v (ps ++ qs) = match np_get v ps with Some u => np_get u qs | None => None end.
+Proof. exact np_get_app. Qed.
+Print Assumptions C05_path_compositional.
+
+(* ... and on texts: ParseFieldPath distributes over '.', the first failure wins; GetNestedField of p.q
+   is GetNestedField of q in the value of p *)
+Theorem C05_path_parse_dot : forall p q, np_parse (p ++ 46%N :: q) = np_app (np_parse p) (np_parse q).
+Proof. exact np_parse_dot. Qed.
+Print Assumptions C05_path_parse_dot.
+
+Theorem C05_path_text_compositional : forall v p q ps qs,
+  np_parse p = POk ps -> ps <> [] -> np_parse q = POk qs -> qs <> [] ->
+  nested_field v (p ++ 46%N :: q) = match nested_field v p with NFound u => nested_field u q | r => r end.
+Proof. exact nested_field_dot. Qed.
+Print Assumptions C05_path_text_compositional.
+
+(* the canonical spelling of a structured path (names joined by '.', brackets appended: what the driver
+   puts into the SQL text, np_render) parses to its segments read one by one, whenever no name contains
+   '.' or '[' and no bracket content contains '.' or ']' *)
+Theorem C05_path_render_parse : forall gs, gs <> [] -> Forall wf_group gs ->
+  np_parse (np_render (np_flatten gs)) = np_seq (map np_seg_part (np_flatten gs)).
+Proof. exact np_parse_render. Qed.
+Print Assumptions C05_path_render_parse.
+
+Theorem C05_path_segments_are_groups : forall ss n, exists cs t, SName n :: ss = np_flatten ((n, cs) :: t).
+Proof. exact np_flatten_surj. Qed.
+Print Assumptions C05_path_segments_are_groups.
+
+(* a broken path: resolution fails exactly at the first step that the value reached so far does not offer *)
+Theorem C05_path_missing_iff : forall ps v,
+  np_get v ps = None <->
+  exists k u p, np_get v (firstn k ps) = Some u /\ nth_error ps k = Some p /\ np_access u p = None.
+Proof. exact np_get_none_iff. Qed.
+Print Assumptions C05_path_missing_iff.
+
+(* ... and one step, exactly: nothing below NULL or a scalar; a map offers its keys (an index as its
+   decimal text); an array offers the indices -len .. len-1 (negative = from the end) and no names *)
+Theorem C05_step_scalar : forall x p, np_access (JS x) p = None.
+Proof. exact np_access_scalar. Qed.
+Print Assumptions C05_step_scalar.
+
+Theorem C05_step_map : forall m p,
+  np_access (JMap m) p = jlookup m (match p with PField n => n | PKey k => k | PIndex i => np_itoa i end).
+Proof. exact np_access_map. Qed.
+Print Assumptions C05_step_map.
+
+Theorem C05_step_array_name : forall l n k,
+  np_access (JArr l) (PField n) = None /\ np_access (JArr l) (PKey k) = None.
+Proof. exact np_access_arr_name. Qed.
+Print Assumptions C05_step_array_name.
+
+Theorem C05_step_array_index : forall l i,
+  let len := Z.of_nat (length l) in
+  np_access (JArr l) (PIndex i) =
+    if ((0 <=? i) && (i <? len))%Z then nth_error l (Z.to_nat i)
+    else if ((- len <=? i) && (i <? 0))%Z then nth_error l (Z.to_nat (len + i))
+    else None.
+Proof. exact np_access_arr_index. Qed.
+Print Assumptions C05_step_array_index.
+
+Theorem C05_step_array_index_missing_iff : forall l i,
+  np_access (JArr l) (PIndex i) = None <-> (i < - Z.of_nat (length l) \/ Z.of_nat (length l) <= i)%Z.
+Proof. exact np_access_arr_index_none_iff. Qed.
+Print Assumptions C05_step_array_index_missing_iff.
+
+(* select items  path [AS alias]:  the result's columns are exactly the output names -- the alias, else
+   the TEXT of the path itself (SELECT d.x, arr[1] yields the keys "d.x" and "arr[1]") *)
+Theorem C05_nested_columns : forall q row r, ndirect q row = NDRow r ->
+  forall k, nc_lookup r k <> None <-> In k (map ni_out (nq_items q)).
+Proof. exact ndirect_columns. Qed.
+Print Assumptions C05_nested_columns.
+
+(* every cell is the value of its path in the row; NULL iff the path is missing or leads to a NULL *)
+Theorem C05_nested_values : forall q row r,
+  Forall (route_is RSimple) (nq_items q) -> NoDup (map ni_out (nq_items q)) ->
+  ndirect q row = NDRow r ->
+  forall i, In i (nq_items q) -> nc_lookup r (ni_out i) = Some (cell_of row (ni_path i)).
+Proof. exact ndirect_values. Qed.
+Print Assumptions C05_nested_values.
+
+Theorem C05_nested_null_iff : forall row path,
+  cell_of row path = CVal jnull <->
+  (ni_value row path = NMissing \/ ni_value row path = NFound jnull \/ ni_value row path = NPanic).
+Proof. exact cell_null_iff. Qed.
+Print Assumptions C05_nested_null_iff.
+
+Theorem C05_nested_filtered_iff : forall q row, ndirect q row = NDNone <-> nwhere_ok q row = Some false.
+Proof. exact ndirect_none_iff. Qed.
+Print Assumptions C05_nested_filtered_iff.
+
+(* history-free, shape changes included: after ANY earlier rows h the cells are those of the row at hand *)
+Theorem C05_nested_history_free : forall q h row,
+  nth (length h) (map (ndirect q) (h ++ [row])) NDNone = ndirect q row.
+Proof. exact ndirect_history_free. Qed.
+Print Assumptions C05_nested_history_free.
+
+Theorem C05_nested_shape_free : forall q h row r,
+  Forall (route_is RSimple) (nq_items q) -> NoDup (map ni_out (nq_items q)) ->
+  nth (length h) (map (ndirect q) (h ++ [row])) NDNone = NDRow r ->
+  forall i, In i (nq_items q) -> nc_lookup r (ni_out i) = Some (cell_of row (ni_path i)).
+Proof. exact ndirect_shape_free. Qed.
+Print Assumptions C05_nested_shape_free.
+
+(* non-vacuity.  Row {id:1, d:{x:5, arr:[10,{k:"v"},30], m:{"0":"z"}}}; the query
+   SELECT d.x AS y, d.arr[1].k, d.arr[-1] AS l, d.arr[3] AS o, d.m[0] AS z, d.x.q AS b FROM stream:
+   y = 5, "d.arr[1].k" = "v" (un-aliased: the key is the path text), o = NULL (out of range), z = "z" (the index
+   as a map key), b = NULL (a step below a scalar); d.arr[-1] holds '-' and is an expression item (RExpr);
+   the canonical text of [d; arr [1]; k] parses to its three parts; p.q = q in the value of p. *)
+Example C05_nested_example :
+  let d := [100]%N in let x := [120]%N in let arr := [97;114;114]%N in let k := [107]%N in let m := [109]%N in
+  let dot := 46%N in
+  let p_dx := d ++ dot :: x in
+  let p_k := d ++ dot :: arr ++ [91;49;93;46;107]%N in          (* d.arr[1].k *)
+  let p_o := d ++ dot :: arr ++ [91;51;93]%N in                  (* d.arr[3] *)
+  let p_neg := d ++ dot :: arr ++ [91;45;49;93]%N in             (* d.arr[-1] *)
+  let p_z := d ++ dot :: m ++ [91;48;93]%N in                    (* d.m[0] *)
+  let p_b := p_dx ++ [46;113]%N in                               (* d.x.q *)
+  let dv := JMap [(x, JS (VNum 5)); (arr, JArr [JS (VNum 10); JMap [(k, JS (VStr [118]%N))]; JS (VNum 30)]); (m, JMap [([48]%N, JS (VStr [122]%N))])] in
+  let row := [([105;100]%N, JS (VNum 1)); (d, dv)] in
+  let it := fun p a => {| ni_path := p; ni_alias := a |} in
+  let q := {| nq_items := [it p_dx (Some [121]%N); it p_k None; it p_o (Some [111]%N); it p_z (Some [122]%N); it p_b (Some [98]%N)];
+              nq_where := Some (ECmp CGt (ECol [105;100]%N) (ENum 0)) |} in
+  ndirect q row = NDRow [([121]%N, CVal (JS (VNum 5))); (p_k, CVal (JS (VStr [118]%N))); ([111]%N, CVal jnull);
+                         ([122]%N, CVal (JS (VStr [122]%N))); ([98]%N, CVal jnull)] /\
+  Forall (route_is RSimple) (nq_items q) /\ np_route p_neg = RExpr /\
+  nested_field (JMap row) p_neg = NFound (JS (VNum 30)) /\
+  np_parse p_k = POk [PField d; PField arr; PIndex 1; PField k] /\
+  p_k = np_render (np_flatten [(d, []); (arr, [[49]%N]); (k, [])]) /\
+  Forall wf_group [(d, []); (arr, [[49]%N]); (k, [])] /\
+  nested_field (JMap row) p_k = match nested_field (JMap row) (d ++ dot :: arr) with NFound u => nested_field u ([91;49;93;46;107]%N) | r => r end /\
+  ndirect q [([105;100]%N, JS (VNum 0)); (d, dv)] = NDNone.
+Proof.
+  vm_compute. repeat split; try reflexivity; repeat constructor; try discriminate;
+    intros H; repeat (destruct H as [H|H]; [discriminate|]); exact H.
+Qed.
+
+(* refuted: "a broken path yields NULL" -- a bracket holding a lone quote panics (F50; parseBracketContent
+   slices content[1:0]); the statement holds for every other malformed bracket (PErr -> plain dot access) *)
+Example C05_lone_quote_panics :
+  nested_field (JMap [([97]%N, JMap [])]) [97;91;39;93]%N = NPanic /\           (* a['] *)
+  nested_field (JMap [([97]%N, JMap [])]) [97;91;93]%N = NMissing /\            (* a[]  *)
+  nested_field (JMap [([97]%N, JMap [])]) [97;91;39;39;93]%N = NMissing.        (* a[''] *)
+Proof. vm_compute. repeat split; reflexivity. Qed.
+
+(* refuted: "a quoted key names the map entry" -- a key that contains '.' is cut at the dot before the
+   brackets are read (F51): d['k.l'] is missing although the entry is there *)
+Example C05_dotted_key_unresolved :
+  let d := [100]%N in let kl := [107;46;108]%N in
+  nested_field (JMap [(d, JMap [(kl, JS (VNum 7))])]) (d ++ [91;39] ++ kl ++ [39;93])%N = NMissing /\
+  np_get (JMap [(d, JMap [(kl, JS (VNum 7))])]) [PField d; PKey kl] = Some (JS (VNum 7)).
+Proof. vm_compute. split; reflexivity. Qed.
